@@ -78,12 +78,17 @@ impl ClassKind {
         }
     }
     pub fn classing(&self) -> Classing {
-        let classes: Vec<(Class, usize)> = self
+        let mut classes: Vec<(Class, usize)> = self
             .slots()
             .iter()
             .enumerate()
             .map(|(i, &n)| (Class(i as u8), n))
             .collect();
+        // The position of a class in the list has no meaning in the interface (classes are named
+        // by id). Vary it with the slot counts so that generated configurations also cover lists
+        // that are not sorted by id; the same ClassKind always gives the same list.
+        let rot = self.slots().iter().sum::<usize>() % classes.len();
+        classes.rotate_left(rot);
         Classing::new(&classes, Class(self.default_class()), self.policy())
     }
     pub fn has_invalid(&self) -> bool {
